@@ -16,8 +16,8 @@ theorem norm_freeze : ∀ v : PyVal, (freeze v).norm = v.norm
   | .frozendict kvs => by simp only [freeze, norm, normKVs_freezeKVs kvs]
   | .set xs => by simp only [freeze, norm, normList_freezeList xs]
   | .list xs => by simp only [freeze, norm, normList_freezeList xs]
+  | .tuple xs => by simp only [freeze, norm, normList_freezeList xs]
   | .frozenset _ => rfl
-  | .tuple _ => rfl
 theorem normList_freezeList : ∀ xs : List PyVal, normList (freezeList xs) = normList xs
   | [] => rfl
   | x :: xs => by simp only [freezeList, normList, norm_freeze x, normList_freezeList xs]
@@ -36,9 +36,12 @@ theorem freeze_idem : ∀ v : PyVal, freeze (freeze v) = freeze v
   | .dict kvs => by simp only [freeze, freezeKVs_idem kvs]
   | .frozendict kvs => by simp only [freeze, freezeKVs_idem kvs]
   | .set _ => rfl
-  | .list _ => rfl
+  | .list xs => by simp only [freeze, freezeList_idem xs]
+  | .tuple xs => by simp only [freeze, freezeList_idem xs]
   | .frozenset _ => rfl
-  | .tuple _ => rfl
+theorem freezeList_idem : ∀ xs : List PyVal, freezeList (freezeList xs) = freezeList xs
+  | [] => rfl
+  | x :: xs => by simp only [freezeList, freeze_idem x, freezeList_idem xs]
 theorem freezeKVs_idem : ∀ kvs : List (PyVal × PyVal), freezeKVs (freezeKVs kvs) = freezeKVs kvs
   | [] => rfl
   | (k, v) :: t => by simp only [freezeKVs, freeze_idem v, freezeKVs_idem t]
@@ -58,7 +61,14 @@ theorem freeze_of_isFrozen : ∀ v : PyVal, v.isFrozen = true → freeze v = v
       simp only [isFrozen] at h
       simp only [freeze, freezeKVs_of_isFrozen kvs h]
   | .frozenset _, _ => rfl
-  | .tuple _, _ => rfl
+  | .tuple xs, h => by
+      simp only [isFrozen] at h
+      simp only [freeze, freezeList_of_isFrozen xs h]
+theorem freezeList_of_isFrozen : ∀ xs : List PyVal, isFrozenList xs = true → freezeList xs = xs
+  | [], _ => rfl
+  | x :: xs, h => by
+      simp only [isFrozenList, Bool.and_eq_true] at h
+      simp only [freezeList, freeze_of_isFrozen x h.1, freezeList_of_isFrozen xs h.2]
 theorem freezeKVs_of_isFrozen : ∀ kvs : List (PyVal × PyVal), isFrozenKVs kvs = true → freezeKVs kvs = kvs
   | [], _ => rfl
   | (k, v) :: t, h => by
@@ -66,7 +76,7 @@ theorem freezeKVs_of_isFrozen : ∀ kvs : List (PyVal × PyVal), isFrozenKVs kvs
       simp only [freezeKVs, freeze_of_isFrozen v h.1.2, freezeKVs_of_isFrozen t h.2]
 end
 
-/-! ### no mutable container survives in a supported value -/
+/-! ### no mutable container survives (keys and set elements hashable: `supported`) -/
 
 mutual
 theorem isFrozen_freeze : ∀ v : PyVal, v.supported = true → (freeze v).isFrozen = true
@@ -90,7 +100,7 @@ theorem isFrozen_freeze : ∀ v : PyVal, v.supported = true → (freeze v).isFro
       simp only [freeze, isFrozen, h]
   | .tuple xs, h => by
       simp only [supported] at h
-      simp only [freeze, isFrozen, h]
+      simp only [freeze, isFrozen, isFrozenList_freezeList xs h]
 theorem isFrozenList_freezeList : ∀ xs : List PyVal, supportedList xs = true →
     isFrozenList (freezeList xs) = true
   | [], _ => rfl
@@ -114,7 +124,6 @@ theorem isFrozenList_freezeList_of_frozen : ∀ xs : List PyVal, isFrozenList xs
         isFrozenList_freezeList_of_frozen xs h.2, Bool.and_self]
 end
 
-/-- An immutable value is supported. -/
 theorem freezeList_eq_map (xs : List PyVal) : freezeList xs = xs.map freeze := by
   induction xs with
   | nil => rfl
@@ -125,5 +134,39 @@ theorem freezeKVs_eq_map (kvs : List (PyVal × PyVal)) :
   induction kvs with
   | nil => rfl
   | cons kv t ih => obtain ⟨k, v⟩ := kv; simp [freezeKVs, ih]
+
+/-! ### an immutable (= hashable) value is supported; supported values stay supported -/
+
+mutual
+theorem supported_of_isFrozen : ∀ v : PyVal, v.isFrozen = true → v.supported = true
+  | .str _, _ => rfl
+  | .int _, _ => rfl
+  | .other _, _ => rfl
+  | .dict _, h => by simp [isFrozen] at h
+  | .set _, h => by simp [isFrozen] at h
+  | .list _, h => by simp [isFrozen] at h
+  | .frozendict kvs, h => by
+      simp only [isFrozen] at h
+      simp only [supported, supportedKVs_of_isFrozen kvs h]
+  | .frozenset xs, h => by
+      simp only [isFrozen] at h
+      simp only [supported, h]
+  | .tuple xs, h => by
+      simp only [isFrozen] at h
+      simp only [supported, supportedList_of_isFrozen xs h]
+theorem supportedList_of_isFrozen : ∀ xs : List PyVal, isFrozenList xs = true → supportedList xs = true
+  | [], _ => rfl
+  | x :: xs, h => by
+      simp only [isFrozenList, Bool.and_eq_true] at h
+      simp only [supportedList, supported_of_isFrozen x h.1, supportedList_of_isFrozen xs h.2,
+        Bool.and_self]
+theorem supportedKVs_of_isFrozen : ∀ kvs : List (PyVal × PyVal), isFrozenKVs kvs = true →
+    supportedKVs kvs = true
+  | [], _ => rfl
+  | (k, v) :: t, h => by
+      simp only [isFrozenKVs, Bool.and_eq_true] at h
+      simp only [supportedKVs, h.1.1, supported_of_isFrozen v h.1.2, supportedKVs_of_isFrozen t h.2,
+        Bool.and_self]
+end
 
 end AV.VA.PyVal
